@@ -38,6 +38,17 @@ ACK_T = bytes.fromhex(
 assert len(LOGIN_T) == 44 and len(SHUTTER_T) == 100 and len(BREEZE_T) == 109, (len(LOGIN_T), len(SHUTTER_T), len(BREEZE_T))
 
 
+def _dress(buf: bytearray, d: Dict[str, Any]) -> None:
+    """Optional header words every reply carries besides its fields: session id (8-11), device clock (24-27), name (40-71)."""
+    if "hdr_session" in d:
+        buf[8:12] = d["hdr_session"]
+    if "hdr_clock" in d:
+        buf[24:28] = d["hdr_clock"]
+    if "hdr_name" in d and len(buf) >= 72:
+        raw = d["hdr_name"].encode("utf-8")[:32]
+        buf[40:72] = raw + bytes(32 - len(raw))
+
+
 def _resign(buf: bytearray) -> bytes:
     buf[-4:] = sign(bytes(buf[:-4]))
     return bytes(buf)
@@ -58,6 +69,9 @@ def state1(d: Dict[str, Any], filler: bytes = None) -> bytes:
     buf[89:93] = struct.pack("<I", d["time_left"])
     buf[93:97] = struct.pack("<I", d["time_on"])
     buf[97:101] = struct.pack("<I", d["auto_shutdown"])
+    if filler is None and ("hdr_session" in d or "hdr_clock" in d):
+        buf[38:40] = b"\xf0\xfe"
+    _dress(buf, {k: v for k, v in d.items() if k in ("hdr_session", "hdr_clock")})
     return _resign(buf)
 
 
@@ -65,6 +79,7 @@ def shutter(d: Dict[str, Any]) -> bytes:
     buf = bytearray(SHUTTER_T)
     buf[76] = d["position"]
     buf[78:80] = DIRECTIONS[d["direction"]]
+    _dress(buf, d)
     return _resign(buf)
 
 
@@ -77,6 +92,7 @@ def thermostat(d: Dict[str, Any]) -> bytes:
     buf[81] = (FANS[d["fan"]] << 4) | (1 if d["swing"] == "ON" else 0)
     rid = d["remote_id"].encode("ascii")
     buf[84:92] = rid + bytes(8 - len(rid))
+    _dress(buf, d)
     return _resign(buf)
 
 
